@@ -58,6 +58,33 @@ fn unique_anchor_stats(c: &Case, calls: &[Call]) -> (usize, usize) {
     (reported, lis)
 }
 
+/// C15's second clause on ANY list of calls, valid script or not: an item that occurs exactly once in the old range and
+/// exactly once in the new range may be reported Equal only with that one counterpart (never with another position, a
+/// position outside the range, or an unequal item)
+fn anchors_matched_to_counterpart(c: &Case, calls: &[Call]) -> Result<(), String> {
+    let o = og(c);
+    let n = ng(c);
+    let cnt = |v: &[u32], x: u32| v.iter().filter(|y| **y == x).count();
+    for call in calls {
+        if let Call::Equal(co, cn, len) = *call {
+            for t in 0..len {
+                let (ao, an) = (co + t, cn + t);
+                if ao < c.os || ao >= c.oe {
+                    continue;
+                }
+                let x = o[ao - c.os];
+                if cnt(&o, x) == 1 && cnt(&n, x) == 1 {
+                    let j = c.ns + n.iter().position(|y| *y == x).unwrap();
+                    if an != j {
+                        return Err(format!("{}: old item {} occurs once in each range, its counterpart is new item {}, but it is reported Equal with new item {}", call.show(), ao, j, an));
+                    }
+                }
+            }
+        }
+    }
+    Ok(())
+}
+
 /// C01 (+ C03 raw, C15 raw) on a raw trace of a run without adapters
 fn check_raw(ctx: &mut Ctx, c: &Case, out: &Outcome, req: &str) {
     if out.status != Status::Ok {
@@ -73,6 +100,11 @@ fn check_raw(ctx: &mut Ctx, c: &Case, out: &Outcome, req: &str) {
     }
     let calls = oracle::strip_finish(&out.trace);
     let r = ranges(c);
+    if c.alg == Algorithm::Patience && c.dl.is_none() {
+        if let Err(e) = anchors_matched_to_counterpart(c, &calls) {
+            ctx.violation("C15", req, e);
+        }
+    }
     if let Err(e) = oracle::walk(&c.old, &c.new, c.o_off, c.n_off, r, &calls, false) {
         ctx.violation("C01", req, e.clone());
         if c.dl.is_some() {
@@ -660,6 +692,11 @@ fn check_cap(ctx: &mut Ctx, c: &Case, cap: &Captured, req: &str) {
         }
     };
     let r = ranges(c);
+    if c.alg == Algorithm::Patience && c.dl.is_none() && c.old.len() + c.new.len() <= 4000 {
+        if let Err(e) = anchors_matched_to_counterpart(c, ops) {
+            ctx.violation("C15", req, format!("captured: {}", e));
+        }
+    }
     if let Err(e) = oracle::walk(&c.old, &c.new, c.o_off, c.n_off, r, ops, true) {
         ctx.violation("C02", req, e.clone());
         if c.dl.is_some() {
